@@ -166,6 +166,21 @@ def catalogue(ctx):
                 makers.append(lambda cls=cls, r=r: cls(r))
             except Exception:
                 pass
+        # the same constructions through KEYWORD arguments (CachedClass keys and __getnewargs_ex__ treat them apart)
+        try:
+            sig = inspect.signature(cls.__init__)
+            names = [n for n, prm in sig.parameters.items() if n != 'self' and prm.kind in (prm.POSITIONAL_OR_KEYWORD, prm.KEYWORD_ONLY)]
+        except (TypeError, ValueError):
+            names = []
+        for nm in names[:3]:
+            for val in (2, 3, 4, 1):
+                try:
+                    cls(**{nm: val})
+                    makers.append(lambda cls=cls, nm=nm, val=val: cls(**{nm: val}))
+                except Exception:
+                    pass
+        if name in ('MPRZGate', 'MPRYGate'):
+            makers.append(lambda cls=cls: cls(3, target_qubit=1))
         made = 0
         for mk in makers:
             try:
@@ -189,6 +204,11 @@ def catalogue(ctx):
                 ctx.violation(dict(call=dname, obj=tag.split(':')[1], symptom='raised'), tag, 'round trip', repr(e)[:200], f'{dname} of gate {tag} raised')
                 continue
             bad = []
+            # building the default-argument instance on the receiving side must not disturb the received gate
+            try:
+                type(g)()
+            except Exception:
+                pass
             if not (h == g):
                 bad.append('==')
             if hash(h) != hash(g):
